@@ -1,7 +1,7 @@
 (* C16: AggregateState (Model/AggImpl.v: upd / fin, i.e. update / finalize of src/sql/state.rs)
-   computes the reference aggregates of Model/SqlSpecAgg.v over EVERY list of values, outside the
-   recorded classes:  COUNT( * ), COUNT(e) without NULLs, SUM / AVG of integers with a non-NULL value,
-   MIN / MAX of integers and of doubles. *)
+   computes the reference aggregates of Model/SqlSpecAgg.v over EVERY list of values: COUNT( * ),
+   COUNT(e) (NULLs skipped), SUM / AVG of integers (NULL when there is no value, an error when the sum
+   leaves i64), MIN / MAX of integers, doubles and text. *)
 From Coq Require Import ZArith List Bool Lia ZifyBool.
 From TV Require Import Model.SqlSpecAgg Model.AggImpl.
 Import ListNotations.
@@ -14,12 +14,25 @@ Fixpoint fold_upd (k : akind) (s : astate) (os : list (option value)) : step ast
   | o :: t => sbind (upd k s o) (fun s' => fold_upd k s' t)
   end.
 
-Lemma run_agg_fold : forall f rows s,
-  run_agg f s rows = fold_upd (kind_of f) s (map (fun r => nth_error r (col_of f)) rows).
+(* the fold of update over rows is the fold of upd over the values of the argument *)
+Fixpoint arg_vals_of (a : marg) (rows : list row) : step (list (option value)) :=
+  match rows with
+  | [] => SOk []
+  | r :: t => sbind (arg_val a r) (fun o => sbind (arg_vals_of a t) (fun l => SOk (o :: l)))
+  end.
+Lemma run_agg_fold : forall f rows os s,
+  arg_vals_of (arg_of f) rows = SOk os -> run_agg f s rows = fold_upd (kind_of f) s os.
 Proof.
-  intros f rows; induction rows as [|r t IH]; intros s; cbn [run_agg map fold_upd]; [reflexivity|].
-  unfold update. destruct (upd (kind_of f) s (nth_error r (col_of f))); cbn [sbind]; auto.
+  intros f rows; induction rows as [|r t IH]; intros os s H; cbn [arg_vals_of] in H.
+  - injection H as <-. reflexivity.
+  - cbn [run_agg]. unfold update. destruct (arg_val (arg_of f) r) as [o| | |]; cbn [sbind] in *; try discriminate.
+    destruct (arg_vals_of (arg_of f) t) as [l| | |]; cbn [sbind] in *; try discriminate. injection H as <-.
+    cbn [fold_upd]. destruct (upd (kind_of f) s o); cbn [sbind]; auto.
 Qed.
+Lemma arg_vals_col : forall c rows, arg_vals_of (ACol c) rows = SOk (map (fun r : list value => nth_error r c) rows).
+Proof. induction rows as [|r t IH]; cbn [arg_vals_of arg_val map sbind]; [reflexivity|]. now rewrite IH. Qed.
+Lemma arg_vals_star : forall rows, arg_vals_of AStar rows = SOk (map (fun _ : list value => Some (VInt 1)) rows).
+Proof. induction rows as [|r t IH]; cbn [arg_vals_of arg_val map sbind]; [reflexivity|]. now rewrite IH. Qed.
 
 Lemma zlen_cons {A} (a : A) l : zlen (a :: l) = zlen l + 1.
 Proof. unfold zlen; cbn [length]; lia. Qed.
@@ -32,13 +45,23 @@ Lemma i64_ok_iff z : i64_ok z = true <-> - 9223372036854775808 <= z < 9223372036
 Proof. unfold i64_ok. change (2 ^ 63) with 9223372036854775808. lia. Qed.
 
 (* ------------------------------------------------------------------ COUNT *)
-Lemma fold_count : forall os s,
-  exists s', fold_upd KCount s os = SOk s' /\ st_count s' = st_count s + zlen os.
+Lemma fold_count : forall vs s,
+  exists s', fold_upd KCount s (map Some vs) = SOk s' /\ st_count s' = st_count s + zlen (nonnull vs).
 Proof.
-  induction os as [|o t IH]; intros s; cbn [fold_upd upd sbind].
-  - exists s; split; [reflexivity| rewrite zlen_nil; lia].
-  - destruct (IH (with_count s (st_count s + 1))) as [s' [E C]].
-    exists s'; split; [exact E|]. rewrite C, zlen_cons; cbn [with_count st_count]; lia.
+  induction vs as [|v t IH]; intros s; cbn [map fold_upd].
+  - exists s; split; [reflexivity|]. unfold nonnull, zlen; cbn; lia.
+  - destruct v; cbn [upd sbind]; unfold nonnull; cbn [filter is_null negb]; fold (nonnull t);
+      try (destruct (IH (with_count s (st_count s + 1))) as [s' [E C]]; exists s'; split; [exact E|];
+           rewrite C, zlen_cons; cbn [with_count st_count]; lia).
+    apply IH.
+Qed.
+Lemma fold_count_star : forall (vs : list value) s,
+  exists s', fold_upd KCount s (map (fun _ => Some (VInt 1)) vs) = SOk s' /\ st_count s' = st_count s + zlen vs.
+Proof.
+  induction vs as [|v t IH]; intros s; cbn [map fold_upd upd sbind].
+  - exists s; split; [reflexivity|]. unfold zlen; cbn; lia.
+  - destruct (IH (with_count s (st_count s + 1))) as [s' [E C]]. exists s'; split; [exact E|].
+    rewrite C, zlen_cons; cbn [with_count st_count]; lia.
 Qed.
 
 (* ------------------------------------------------------------------ integer columns *)
@@ -71,16 +94,17 @@ Proof. reflexivity. Qed.
 
 Definition in64 (z : Z) : Prop := - 9223372036854775808 <= z < 9223372036854775808.
 
-(* SUM: as long as the positive and the negative part both fit, no `+=` overflows and the state
-   ends with the exact sum; nothing else changes *)
+(* SUM: as long as the positive and the negative part both fit, no checked_add fails and the state
+   ends with the exact sum; `seen` records whether there was a value *)
 Lemma fold_sum_int : forall vs zs s,
   ints_of (nonnull vs) = Some zs ->
   in64 (st_sum s) -> in64 (st_sum s + pos_sum zs) -> in64 (st_sum s + neg_sum zs) ->
   exists s', fold_upd KSum s (map Some vs) = SOk s' /\
-             st_sum s' = st_sum s + zsum zs /\ st_sumf s' = st_sumf s /\ st_count s' = st_count s.
+             st_sum s' = st_sum s + zsum zs /\ st_sumf s' = st_sumf s /\ st_count s' = st_count s /\
+             st_seen s' = (st_seen s || match zs with [] => false | _ => true end).
 Proof.
   unfold in64. induction vs as [|v t IH]; intros zs s H B P N.
-  - cbn in H; injection H as <-. exists s; cbn [map fold_upd zsum fold_right]; repeat split; lia.
+  - cbn in H; injection H as <-. exists s; cbn [map fold_upd zsum fold_right]. rewrite orb_false_r. repeat split; lia.
   - destruct (ints_of_nonnull_cons _ _ _ H) as [[-> H']|[z [zs' [-> [-> H']]]]]; cbn [map fold_upd upd sbind].
     + apply IH; auto.
     + unfold add_int. rewrite pos_sum_cons in P. rewrite neg_sum_cons in N.
@@ -88,11 +112,25 @@ Proof.
       assert (Hok : i64_ok (st_sum s + z) = true).
       { apply i64_ok_iff. destruct (0 <? z) eqn:E1; destruct (z <? 0) eqn:E2; lia. }
       rewrite Hok; cbn [sbind].
-      destruct (IH zs' (with_sum s (st_sum s + z)) H') as [s' [E [S [F C]]]]; cbn [with_sum st_sum].
+      destruct (IH zs' (with_seen (with_sum s (st_sum s + z)) true) H') as [s' [E [S [F [C Sn]]]]]; cbn [with_sum with_seen st_sum].
       * destruct (0 <? z) eqn:E1; destruct (z <? 0) eqn:E2; lia.
       * destruct (0 <? z) eqn:E1; destruct (z <? 0) eqn:E2; lia.
       * destruct (0 <? z) eqn:E1; destruct (z <? 0) eqn:E2; lia.
-      * exists s'; split; [exact E|]. cbn [with_sum st_sum st_sumf st_count] in *. rewrite zsum_cons. repeat split; lia.
+      * exists s'; split; [exact E|]. cbn [with_sum with_seen st_sum st_sumf st_count st_seen] in *. rewrite zsum_cons.
+        repeat split; try lia.
+Qed.
+
+(* ... and when the exact sum does not fit, some checked_add fails: an error *)
+Lemma fold_sum_int_err : forall vs zs s,
+  ints_of (nonnull vs) = Some zs -> in64 (st_sum s) -> ~ in64 (st_sum s + zsum zs) ->
+  fold_upd KSum s (map Some vs) = SErr.
+Proof.
+  unfold in64. induction vs as [|v t IH]; intros zs s H B N.
+  - cbn in H; injection H as <-. cbn [zsum fold_right] in N. lia.
+  - destruct (ints_of_nonnull_cons _ _ _ H) as [[-> H']|[z [zs' [-> [-> H']]]]]; cbn [map fold_upd upd sbind].
+    + apply (IH zs s H' B N).
+    + unfold add_int. destruct (i64_ok (st_sum s + z)) eqn:Ok; cbn [sbind]; [|reflexivity].
+      apply i64_ok_iff in Ok. apply (IH zs' _ H'); cbn [with_sum with_seen st_sum]; [lia|]. rewrite zsum_cons in N. lia.
 Qed.
 
 Lemma fold_avg_int : forall vs zs s,
@@ -126,26 +164,26 @@ Definition omax (o : option Z) (z : Z) : option Z := Some (match o with Some m =
 Lemma fold_min_int : forall vs zs s,
   ints_of (nonnull vs) = Some zs ->
   exists s', fold_upd KMin s (map Some vs) = SOk s' /\
-             st_min_i s' = fold_left omin zs (st_min_i s) /\ st_min_f s' = st_min_f s.
+             st_min_i s' = fold_left omin zs (st_min_i s) /\ st_min_f s' = st_min_f s /\ st_min_t s' = st_min_t s.
 Proof.
   induction vs as [|v t IH]; intros zs s H.
   - cbn in H; injection H as <-. exists s; cbn; auto.
   - destruct (ints_of_nonnull_cons _ _ _ H) as [[-> H']|[z [zs' [-> [-> H']]]]]; cbn [map fold_upd upd sbind].
     + apply IH; auto.
-    + destruct (IH zs' (with_min_i s (match st_min_i s with Some m => Z.min m z | None => z end)) H') as [s' [E [M F]]].
-      exists s'; split; [exact E|]. cbn [fold_left with_min_i st_min_i st_min_f] in *. split; [exact M|exact F].
+    + destruct (IH zs' (with_min_i s (match st_min_i s with Some m => Z.min m z | None => z end)) H') as [s' [E [M [F T]]]].
+      exists s'; split; [exact E|]. cbn [fold_left with_min_i st_min_i st_min_f st_min_t] in *. split; [exact M|split; [exact F|exact T]].
 Qed.
 Lemma fold_max_int : forall vs zs s,
   ints_of (nonnull vs) = Some zs ->
   exists s', fold_upd KMax s (map Some vs) = SOk s' /\
-             st_max_i s' = fold_left omax zs (st_max_i s) /\ st_max_f s' = st_max_f s.
+             st_max_i s' = fold_left omax zs (st_max_i s) /\ st_max_f s' = st_max_f s /\ st_max_t s' = st_max_t s.
 Proof.
   induction vs as [|v t IH]; intros zs s H.
   - cbn in H; injection H as <-. exists s; cbn; auto.
   - destruct (ints_of_nonnull_cons _ _ _ H) as [[-> H']|[z [zs' [-> [-> H']]]]]; cbn [map fold_upd upd sbind].
     + apply IH; auto.
-    + destruct (IH zs' (with_max_i s (match st_max_i s with Some m => Z.max m z | None => z end)) H') as [s' [E [M F]]].
-      exists s'; split; [exact E|]. cbn [fold_left with_max_i st_max_i st_max_f] in *. split; [exact M|exact F].
+    + destruct (IH zs' (with_max_i s (match st_max_i s with Some m => Z.max m z | None => z end)) H') as [s' [E [M [F T]]]].
+      exists s'; split; [exact E|]. cbn [fold_left with_max_i st_max_i st_max_f st_max_t] in *. split; [exact M|split; [exact F|exact T]].
 Qed.
 
 (* the reference extremum over integers is the same fold *)
@@ -194,28 +232,28 @@ Definition ofmax (o : option Z) (x : Z) : option Z := Some (match o with Some m 
 Lemma fold_min_float : forall vs fs s,
   floats_of (nonnull vs) = Some fs -> forallb f_okn fs = true ->
   exists s', fold_upd KMin s (map Some vs) = SOk s' /\
-             st_min_f s' = fold_left ofmin fs (st_min_f s) /\ st_min_i s' = st_min_i s.
+             st_min_f s' = fold_left ofmin fs (st_min_f s) /\ st_min_i s' = st_min_i s /\ st_min_t s' = st_min_t s.
 Proof.
   induction vs as [|v t IH]; intros fs s H K.
   - cbn in H; injection H as <-. exists s; cbn; auto.
   - destruct (floats_of_nonnull_cons _ _ _ H) as [[-> H']|[b [fs' [-> [-> H']]]]]; cbn [map fold_upd upd sbind].
     + apply IH; auto.
     + cbn [forallb] in K. apply andb_true_iff in K as [K1 K2]. rewrite K1; cbn [sbind].
-      destruct (IH fs' (with_min_f s (match st_min_f s with Some m => if f_lt b m then b else m | None => b end)) H' K2) as [s' [E [M F]]].
-      exists s'; split; [exact E|]. cbn [fold_left with_min_f st_min_i st_min_f] in *. split; [exact M|exact F].
+      destruct (IH fs' (with_min_f s (match st_min_f s with Some m => if f_lt b m then b else m | None => b end)) H' K2) as [s' [E [M [F T]]]].
+      exists s'; split; [exact E|]. cbn [fold_left with_min_f st_min_i st_min_f st_min_t] in *. split; [exact M|split; [exact F|exact T]].
 Qed.
 Lemma fold_max_float : forall vs fs s,
   floats_of (nonnull vs) = Some fs -> forallb f_okn fs = true ->
   exists s', fold_upd KMax s (map Some vs) = SOk s' /\
-             st_max_f s' = fold_left ofmax fs (st_max_f s) /\ st_max_i s' = st_max_i s.
+             st_max_f s' = fold_left ofmax fs (st_max_f s) /\ st_max_i s' = st_max_i s /\ st_max_t s' = st_max_t s.
 Proof.
   induction vs as [|v t IH]; intros fs s H K.
   - cbn in H; injection H as <-. exists s; cbn; auto.
   - destruct (floats_of_nonnull_cons _ _ _ H) as [[-> H']|[b [fs' [-> [-> H']]]]]; cbn [map fold_upd upd sbind].
     + apply IH; auto.
     + cbn [forallb] in K. apply andb_true_iff in K as [K1 K2]. rewrite K1; cbn [sbind].
-      destruct (IH fs' (with_max_f s (match st_max_f s with Some m => if f_lt m b then b else m | None => b end)) H' K2) as [s' [E [M F]]].
-      exists s'; split; [exact E|]. cbn [fold_left with_max_f st_max_i st_max_f] in *. split; [exact M|exact F].
+      destruct (IH fs' (with_max_f s (match st_max_f s with Some m => if f_lt m b then b else m | None => b end)) H' K2) as [s' [E [M [F T]]]].
+      exists s'; split; [exact E|]. cbn [fold_left with_max_f st_max_i st_max_f st_max_t] in *. split; [exact M|split; [exact F|exact T]].
 Qed.
 
 Lemma floats_of_map : forall vs fs, floats_of vs = Some fs -> vs = map VFloat fs.
@@ -253,4 +291,73 @@ Proof.
   - apply Z.compare_eq in E. replace (f_key c <? f_key x) with false by lia. apply IH; auto.
   - rewrite Z.compare_lt_iff in E. replace (f_key c <? f_key x) with false by lia. apply IH; auto.
   - rewrite Z.compare_gt_iff in E. replace (f_key c <? f_key x) with true by lia. apply IH; auto.
+Qed.
+
+
+(* ------------------------------------------------------------------ text columns: MIN / MAX *)
+Lemma texts_of_nonnull_cons : forall v vs ts,
+  texts_of (nonnull (v :: vs)) = Some ts ->
+  (v = VNull /\ texts_of (nonnull vs) = Some ts) \/
+  (exists b ts', v = VText b /\ ts = b :: ts' /\ texts_of (nonnull vs) = Some ts').
+Proof.
+  intros v vs ts H. unfold nonnull in *; cbn [filter] in H.
+  destruct v; cbn [is_null negb] in H; try (cbn [texts_of] in H; discriminate).
+  - left; auto.
+  - right. cbn [texts_of] in H.
+    destruct (texts_of (filter (fun v => negb (is_null v)) vs)) as [ts'|]; cbn in H; [|discriminate].
+    injection H as <-. eauto.
+Qed.
+Definition otmin (o : option (list Z)) (x : list Z) : option (list Z) := Some (match o with Some m => if t_lt x m then x else m | None => x end).
+Definition otmax (o : option (list Z)) (x : list Z) : option (list Z) := Some (match o with Some m => if t_lt m x then x else m | None => x end).
+
+Lemma fold_min_text : forall vs ts s,
+  texts_of (nonnull vs) = Some ts ->
+  exists s', fold_upd KMin s (map Some vs) = SOk s' /\
+             st_min_t s' = fold_left otmin ts (st_min_t s) /\ st_min_i s' = st_min_i s /\ st_min_f s' = st_min_f s.
+Proof.
+  induction vs as [|v t IH]; intros ts s H.
+  - cbn in H; injection H as <-. exists s; cbn; auto.
+  - destruct (texts_of_nonnull_cons _ _ _ H) as [[-> H']|[b [ts' [-> [-> H']]]]]; cbn [map fold_upd upd sbind].
+    + apply IH; auto.
+    + destruct (IH ts' (with_min_t s (match st_min_t s with Some m => if t_lt b m then b else m | None => b end)) H') as [s' [E [M [F T]]]].
+      exists s'; split; [exact E|]. cbn [fold_left with_min_t st_min_i st_min_f st_min_t] in *. split; [exact M|split; [exact F|exact T]].
+Qed.
+Lemma fold_max_text : forall vs ts s,
+  texts_of (nonnull vs) = Some ts ->
+  exists s', fold_upd KMax s (map Some vs) = SOk s' /\
+             st_max_t s' = fold_left otmax ts (st_max_t s) /\ st_max_i s' = st_max_i s /\ st_max_f s' = st_max_f s.
+Proof.
+  induction vs as [|v t IH]; intros ts s H.
+  - cbn in H; injection H as <-. exists s; cbn; auto.
+  - destruct (texts_of_nonnull_cons _ _ _ H) as [[-> H']|[b [ts' [-> [-> H']]]]]; cbn [map fold_upd upd sbind].
+    + apply IH; auto.
+    + destruct (IH ts' (with_max_t s (match st_max_t s with Some m => if t_lt m b then b else m | None => b end)) H') as [s' [E [M [F T]]]].
+      exists s'; split; [exact E|]. cbn [fold_left with_max_t st_max_i st_max_f st_max_t] in *. split; [exact M|split; [exact F|exact T]].
+Qed.
+
+Lemma texts_of_map : forall vs ts, texts_of vs = Some ts -> vs = map VText ts.
+Proof.
+  induction vs as [|v t IH]; intros ts H; cbn [texts_of] in H.
+  - injection H as <-; reflexivity.
+  - destruct v; try discriminate. destruct (texts_of t) as [ts'|]; cbn in H; [|discriminate].
+    injection H as <-. cbn [map]. f_equal. apply IH; reflexivity.
+Qed.
+Lemma bytes_cmp_opp : forall a b, bytes_cmp b a = CompOpp (bytes_cmp a b).
+Proof.
+  induction a as [|x a IH]; intros [|y b]; cbn [bytes_cmp]; try reflexivity.
+  rewrite (Z.compare_antisym x y). destruct (x ?= y); cbn [CompOpp]; auto.
+Qed.
+Lemma extremum_min_text : forall ts c,
+  extremum Lt (VText c) (map VText ts) = option_map VText (fold_left otmin ts (Some c)).
+Proof.
+  induction ts as [|x t IH]; intros c; cbn [map extremum fold_left]; [reflexivity|].
+  change (otmin (Some c) x) with (Some (if t_lt x c then x else c)).
+  cbn [cmp_values]. unfold t_lt. destruct (bytes_cmp x c); apply IH.
+Qed.
+Lemma extremum_max_text : forall ts c,
+  extremum Gt (VText c) (map VText ts) = option_map VText (fold_left otmax ts (Some c)).
+Proof.
+  induction ts as [|x t IH]; intros c; cbn [map extremum fold_left]; [reflexivity|].
+  change (otmax (Some c) x) with (Some (if t_lt c x then x else c)).
+  cbn [cmp_values]. unfold t_lt. rewrite (bytes_cmp_opp x c). destruct (bytes_cmp x c); cbn [CompOpp]; apply IH.
 Qed.
